@@ -38,6 +38,8 @@ class Tag(object):
   __slots__ = ('_tag',)
 
   KEY = "__Tag"
+  # Set on the message properties once the request has been written to the socket.
+  SENT_KEY = "__TagSent"
 
   def __init__(self, tag):
     self._tag = tag
@@ -293,6 +295,8 @@ class MuxSocketTransportSink(ClientMessageSink):
         with self._varz.send_time.Measure():
           with self._varz.send_latency.Measure():
             self._socket.write(payload)
+        if dct is not self._EMPTY_DCT:
+          dct[Tag.SENT_KEY] = True
         self._varz.messages_sent()
       except Exception as e:
         self._Shutdown(e)
@@ -321,6 +325,12 @@ class MuxSocketTransportSink(ClientMessageSink):
     raise NotImplementedError()
 
   def _ProcessTaggedReply(self, tag, stream):
+    tup = self._tag_map.get(tag)
+    if tup is not None and not tup[2].get(Tag.SENT_KEY):
+      # The request holding this tag is still in the send queue, so the server
+      # can not be answering it: this is a duplicate or stray frame for an
+      # earlier use of the tag.  Dropping it keeps the tag with its request.
+      return
     tup = self._ReleaseTag(tag)
     if tup:
       reply_stack, start_time, props = tup
